@@ -210,11 +210,11 @@ def finish(prop, tier, seed, results, crashed, wall, no_evidence=False, partial=
         print(f"  {flag:12s} {r['unit']}: paths={r['paths']} aborted={r['aborted']} obl={r['obligations']} unsat={r['unsat']} sat={r['sat']} unk={r['unknown']} {r['wall_s']}s")
     for ln in lines:
         print(ln)
+    for u, m in inconclusive[:30]:
+        print(f"INCONCLUSIVE {prop} {u}: {m[:1200]}")
     if violations:
         return 1
     if inconclusive:
-        for u, m in inconclusive[:30]:
-            print(f"INCONCLUSIVE {prop} {u}: {m[:1200]}")
         return 2
     return 0
 
